@@ -18,6 +18,7 @@ RULE = (
     "zeros, distance_factor in {1,.5,2}; entry points: heteroscedastic, homoscedastic, vectorized (harness-built NaN padding) and "
     "GaussianDBALScorer.score on real plates with shipped and a harness-defined heteroscedastic Theta, max_chunk 1..7; plus re-grouping, "
     "experiment and sample permutations. Non-trivial = >=2 plates of different sizes (padding exercised) or a size-1 plate. distinct = distinct case JSON."
+    ' Also: one call whose padded work array has 34 million entries (thorough: three).'
 )
 ASSUMPTIONS = [
     "plates have >=1 experiment; means bounded so no single term overflows (finiteness is claimed only when some triple has positive distance)",
@@ -162,9 +163,53 @@ def _cmp(got, ref, sub, what):
         require(_close(g, r), sub, lambda: "%s: plate %d score %r, direct estimator %r" % (what, p, g, r))
 
 
+def exhaustive(tier):
+    # one call whose padded work array (plates x triples x experiments) has tens of millions of entries: a tiny plate scored next to
+    # a plate of thousands of experiments (one in the quick tier, about 2 GB and some seconds)
+    yield {"kind": "big_tensor", "n": 31, "sizes": [3, 3800], "seed": 31}
+    if tier != "quick":
+        yield {"kind": "big_tensor", "n": 29, "sizes": [5, 2, 4700], "seed": 29}
+        yield {"kind": "big_tensor", "n": 27, "sizes": [2, 6100, 1], "seed": 27}
+
+
+def _vector_reference(m, v, d):
+    """the direct estimator for one plate, vectorised over (triples x experiments) in float64"""
+    n = m.shape[0]
+    tr = np.array(list(itertools.combinations(range(n), 3)))
+    i, j, k = tr[:, 0], tr[:, 1], tr[:, 2]
+    s = d[i, j] + d[j, k] + d[i, k]
+    with np.errstate(divide="ignore"):
+        logd = np.log(s)
+    vi, vj, vk = v[i], v[j], v[k]
+    alpha = vi * vj + vj * vk + vi * vk
+    quad = vk * (m[i] - m[j]) ** 2 + vj * (m[i] - m[k]) ** 2 + vi * (m[j] - m[k]) ** 2
+    t = logd + np.sum(-0.5 * np.log(alpha) - 0.5 * (vi * vj * vk) / (alpha * alpha) * quad, axis=1)
+    mx = np.max(t)
+    return float(mx + np.log(np.sum(np.exp(t - mx))))
+
+
+def _check_big_tensor(case, gd):
+    n = case["n"]
+    r = np.random.default_rng(case["seed"])
+    d = r.uniform(0.2, 2.0, size=(n, n))
+    d = d + d.T
+    np.fill_diagonal(d, 0)
+    means = [r.normal(scale=0.4, size=(n, e)) for e in case["sizes"]]
+    var = [10.0 ** r.uniform(-0.5, 0.5, size=(n, e)) for e in case["sizes"]]
+    ref = [_vector_reference(m, v, d) for m, v in zip(means, var)]
+    got = [float(x) for x in gd.dbal_fast_gaussian_scoring_heteroscedastic(means, var, d, np.random.default_rng(1), max_combos=5000)]
+    for p_, (g, rf) in enumerate(zip(got, ref)):
+        require(_close(g, rf), "big_tensor.equals_direct", lambda: "plate %d of sizes %r scored in one call: %r, direct estimator %r" % (p_, case["sizes"], g, rf))
+    alone = float(gd.dbal_fast_gaussian_scoring_heteroscedastic(means[:1], var[:1], d, np.random.default_rng(2), max_combos=5000)[0])
+    require(_close(alone, got[0]), "big_tensor.independent_of_other_plates", lambda: "the small plate scores %r alone and %r next to a plate of %d experiments" % (alone, got[0], max(case["sizes"])))
+    return {"nontrivial": True, "labels": ["big_tensor"], "counts": {"big_tensor_elements": len(case["sizes"]) * math.comb(n, 3) * max(case["sizes"])}}
+
+
 def check_case(case):
     from batchie.scoring import gaussian_dbal as gd
 
+    if case["kind"] == "big_tensor":
+        return _check_big_tensor(case, gd)
     if case["kind"] == "raw":
         n = case["n"]
         d = _dense(case["dist"], n, case.get("diagonal"))
